@@ -102,11 +102,25 @@ pub fn random_selection(r: &mut Rng, u: &Value) -> Value {
 /// aud / nonce strings incl. empty, Unicode, '~', '.', and 1 KB values
 pub fn gen_aud_nonce(r: &mut Rng) -> (String, String) {
     fn one(r: &mut Rng) -> String {
-        match r.below(15) {
+        match r.below(17) {
             0 => String::new(),
             // texts that are JSON literals (a verifier comparing "as text" would confuse them with
             // non-string claim values), and URL-shaped audiences with / without a trailing slash
             10 => (*r.pick(&["null", "true", "false", "20240131", "0", "-1", "1.0", "[1]", "{}", "[]", "\"n\""])).to_string(),
+            // values with a well-known SHAPE (UUIDs in either case, urn:uuid, 32 hex digits, ULID-like, a compact
+            // JWT): compared as opaque strings all the same
+            14 => {
+                let (a, b) = (r.next(), r.next());
+                let uuid = format!("{:08x}-{:04x}-4{:03x}-a{:03x}-{:012x}", a >> 32, (a >> 16) & 0xffff, a & 0xfff, b >> 52, b & 0xffff_ffff_ffff);
+                match r.below(6) {
+                    0 => uuid,
+                    1 => uuid.to_uppercase(),
+                    2 => format!("urn:uuid:{uuid}"),
+                    3 => format!("{a:016x}{b:016X}"),
+                    4 => format!("01HZX{:021}", (a % 1_000_000_007).to_string() + "ABCDEFGHJKMNPQ").chars().take(26).collect(),
+                    _ => "eyJhbGciOiJub25lIn0.eyJub25jZSI6MX0.".to_string(),
+                }
+            }
             13 if r.chance(50) => crate::tamper::boundary_text(r),
             // "scheme://" audiences whose scheme part is not an RFC 3986 scheme: an audience is an opaque
             // string, not a URI to be validated
